@@ -360,9 +360,19 @@ func calculatePartitionStatus(offsets []*protocol.ConsumerOffset, brokerOffsets 
 		// suddenly rewind to earliest (broker bugs are common cause of this). So there will be zero lag in part of the
 		// consumer history (so marked OK) and then when that ages out we just have the positive progress as the
 		// consumer works through the lag (again, being marked OK).
+		//
+		// Every rewind in the window counts: an earlier one the consumer recovered from must not hide a later one it
+		// has not recovered from.
 		rewindIndex := checkIfOffsetsRewind(offsets)
-		if rewindIndex > 0 && !checkIfRewindRecovered(offsets, rewindIndex) {
-			return protocol.StatusRewind
+		for rewindIndex > 0 {
+			if !checkIfRewindRecovered(offsets, rewindIndex) {
+				return protocol.StatusRewind
+			}
+			nextRewind := checkIfOffsetsRewind(offsets[rewindIndex:])
+			if nextRewind < 0 {
+				break
+			}
+			rewindIndex += nextRewind
 		}
 
 		// Now check if the lag was zero at any point, and skip the rest of the checks if this is true
